@@ -43,6 +43,7 @@ pub fn profile() -> Profile {
     p.workgroup = 1;
     p.unused_structs = (0, 1);
     p.vin_as_storage = 3;
+    p.keyword_names = 1;
     p
 }
 
